@@ -137,7 +137,7 @@ def canon(fn, roles, mirror=None, consts=None, callee_map=None):
     return Canon(lines, len(order))
 
 
-def compare(c1, c2, max_point=3):
+def compare(c1, c2, max_point=8):
     """-> ('equal', []) | ('point', [(i, line1, line2)]) | ('shape', reason)"""
     if c1.blocks != c2.blocks:
         return 'shape', 'block counts differ (%d vs %d)' % (c1.blocks, c2.blocks)
